@@ -36,7 +36,7 @@ def detect_only():
         sh(f"git -C /repo worktree remove --force {wt}")
         shutil.rmtree(wt, ignore_errors=True)
         sh(f"git -C /repo worktree add -q --detach {wt} HEAD")
-        rc, out = sh(f"git apply {d}/patch.diff", cwd=wt)
+        rc, out = sh(f"git apply --3way {d}/patch.diff && git reset -q", cwd=wt)
         if rc != 0:
             meta["detection"] = {"error": "patch does not apply to /repo HEAD", "out": out[-400:]}
         else:
@@ -47,6 +47,10 @@ def detect_only():
                                  "repo_head": sh("git -C /repo rev-parse --short HEAD")[1].strip(), "verif_head": sh("git -C /verif rev-parse --short HEAD")[1].strip()}
             if rc not in (0, 1):
                 meta["detection"]["tail"] = out[-600:]
+            for p2 in meta.get("also_check", []):
+                rc2, out2 = sh(f"{VERIF}/bin/vcheck {p2} --tier quick --repo {wt}", cwd=VERIF, timeout=3000)
+                sigs2 = sorted(set(l.strip()[len("signature: "):] for l in out2.splitlines() if l.strip().startswith("signature: ")))
+                meta.setdefault("detection_by_other_checks", {})[p2] = {"exit": rc2, "signatures": sigs2[:6]}
         json.dump(meta, open(mp, "w"), indent=1)
         sh(f"git -C /repo worktree remove --force {wt}")
         shutil.rmtree(wt, ignore_errors=True)
